@@ -199,6 +199,19 @@ def check_builder(ctx, lib, rule, ty):
         i_s = min(i for i, n in enumerate(names) if "split_off" in n)
         i_p = min(i for i, n in enumerate(names) if "pop" in n and "split_off" not in n) if any("pop" in n and "split_off" not in n for n in names) else -1
         ctx.expect(i_p > i_s, rule, key + "|split-before-pop", site, "split_off(1) must run before pop() so that pop() yields element 0")
+    # every non-empty clause contributes its node: a path through the loop body that does not
+    # assign the chain must be one where the clause is empty
+    for lits, effs, term in tables.block_paths(f[3]):
+        assigned = any(isinstance(e, tuple) and e and e[0] == "assign" and e[1] == acc for e in effs)
+        if assigned:
+            continue
+        empty = any(w and isinstance(l, tuple) and l and l[0] == "call" and suffix_match(l[1], "is_empty") for l, w in lits)
+        if not empty:
+            why = [(show(l, maxdepth=3)[:60], w) for l, w in lits if not (isinstance(l, tuple) and l and l[0] == "matches")]
+            ctx.violation(rule, key + "|every-clause-kept", site, "a non-empty clause is left out of the chain when %s (a clause whose head succeeds must commit even if its rest fails)" % why)
+            break
+    else:
+        ctx.ok(rule, key + "|every-clause-kept", site)
     # guard: non-empty clause
     guards = [s for s in sym.subterms(f[3]) if s[0] == "if" and any(True for _ in sym.calls(s[1], "is_empty"))]
     ctx.expect(bool(guards) and guards[0][1][0] == "unop" and guards[0][1][1] == "Not", rule, key + "|skip-empty", site, "empty clauses must be skipped (pop() on an empty clause would panic)")
